@@ -16,7 +16,7 @@ CLAIM = dict(
          'quadratic-convergence ball (radius <= m1/(2 M2): scalar families have sup|f\'|/inf|f\'| <= 2 on the ball, so |dx| <= tol implies |e| <= 8/3 tol before the last step; systems are diagonally dominant '
          'with gap >= 1.05 on the ball, so residual <= tol implies |e| <= tol (Varah)). Success is REQUIRED from limit 14 on (calibrated: worst observed 5-6 steps; 2x rule), failure is REQUIRED for the root-free, '
          'non-differentiable, NaN and constant families (criterion provably never met). Iterations are not observable hook-free; "exactly maxIter steps when the criterion is never met" is decided by the ladder rule (per-step cost inferred from the limit-1 run of the same object, nothing hard-coded), plus the evaluation bound, limit 0/1 cases and prefix closure. '
-         'The vector variants expose no parameters() (needs T: Copy): their configuration is checked through behaviour (second call identical). Trusted: TLC, the recording closures and family definitions in newton.rs.',
+         'The vector variants expose no parameters() (needs T: Copy): their configuration is checked through behaviour (second call identical). KNOWN FINDING (known_findings.json): on the unchanged crate a NaN residual in a position >= 1 is ignored by Vector::norm_inf and the system solvers return Ok with NaN components; position 0 fails as required. Trusted: TLC, the recording closures and family definitions in newton.rs.',
     design='4 (C17)')
 
 
@@ -57,6 +57,7 @@ def check(ctx):
              '(ii-d) nested / re-entrant use: outer functions F(x) = G(x) - G(x*) whose G couples to the solution w(x) of an inner system that the user function solves with a real ohsl Newton solve per evaluation '
              '(all constants in closed form, w(x*) = w*; diagonal dominance and basin proved with |dw/dx| <= 1/gap_inner): inner size equal / smaller / larger, scalar in system, system in scalar, complex in real, real in complex (fixed right-hand side), '
              'user-Jacobian inner solver, two levels deep (A calls B calls C); half of them run the inner solves of call 2 on a second thread (std::thread::scope) while the first is mid-solve - call 2 must stay bit-identical to call 1; '
+             '(iii-b) an undefined equation while the others have converged: systems of dimension 2..5, equation p in every position NaN always or from the second step on (sqrt / acos of a Newton step outside the domain), the other equations linear and already at / one step from their roots, all four system variants: must fail, and success never carries a non-finite component; '
              '(iv) ladders: never-converging functions (root-free, constant, non-differentiable, z^2 with tol 1e-300) solved under limits 1, 0, 2, 3, 5, 8, 13, 20, 50 on one object, all six variants: '
              'closure calls under limit m = m x calls under limit 1 (exactly m steps), every run a prefix of the longer ones, Err carries a point of step m+1; '
              '(v) reconfiguration sequences: solve, then every ordered arrangement of every non-empty subset of tolerance/delta/iterations/guess (64) plus same-value sets, guess(root), iterations(0), solve again: '
